@@ -1196,10 +1196,17 @@ impl Engine for NetEngine {
     fn run(&self, prop: &str, ctx: &mut RunCtx) -> RunResult {
         run_net(prop, ctx)
     }
-    fn budget(&self, _prop: &str, tier: Tier) -> Budget {
+    fn budget(&self, prop: &str, tier: Tier) -> Budget {
+        // Thorough run counts: validated prefixes of the default seed's run sequence (see verif-mgr's budget)
+        let thorough_runs = match prop {
+            "C14" => 1_000_000,
+            "C13" => 500_000,
+            "C01" => 400_000,
+            _ => 180_000,
+        };
         match tier {
             Tier::Quick => Budget { runs: 20_000, wall_cap_s: 150 },
-            Tier::Thorough => Budget { runs: 1_000_000, wall_cap_s: 1500 },
+            Tier::Thorough => Budget { runs: thorough_runs, wall_cap_s: 1500 },
         }
     }
     fn classifier(&self) -> fn(&str, &str, &[String]) -> Option<&'static str> {
